@@ -1,5 +1,5 @@
 (* C04 - LCOV input fidelity.  Property theorems only. *)
-From Grcov Require Import Model.Lcov Model.LcovSpec.
+From Grcov Require Import Model.Lcov Model.LcovSpec Proofs.MergeFacts Proofs.LcovFacts.
 Import Coq.Strings.String.StringSyntax.
 
 (* non-vacuity of the specification: a well-formed two-section file with duplicates, CRLF, a
@@ -18,6 +18,42 @@ Example C04_ex_parse :
     (parse_lcov (render_file ex_file) true) =
   Some [(bs "a,b/é.c", cov_to_l (denote true (s_recs (hd (mkSection [] [] false [] false) (l_sections ex_file))).*1))].
 Proof. vm_compute. reflexivity. Qed.
-Theorem C04_placeholder_example_saturates :
+Example C04_ex_saturates :
   c_lines (denote true (s_recs (hd (mkSection [] [] false [] false) (l_sections ex_file))).*1) !! 3 = Some U64_MAX.
 Proof. vm_compute. reflexivity. Qed.
+
+(* Soundness: for every well-formed tracefile (any record order, duplicates, blank lines, LF / CRLF,
+   summary and unused record kinds, names over all bytes but line terminators) outside the known-finding
+   class (an FNDA before the FN of its function), the parser returns one record per section, named as the
+   SF line says, whose lines / branches / functions are exactly what the section's records say. *)
+Theorem C04_parse_lcov_sound : forall b f,
+  wf_file f = true ->
+  existsb KnownClass_fnda_first (l_sections f) = false ->
+  exists res, parse_lcov (render_file f) b = Ok res /\
+              Forall2 (fun s r => r.1 = s_name s /\ sec_spec b (s_recs s).*1 r.2) (l_sections f) res.
+Proof. exact parse_lcov_sound. Qed.
+(* The meaning does not depend on record order, and it determines the record. *)
+Theorem C04_sec_spec_perm : forall b rs rs' c,
+  rs ≡ₚ rs' -> NoDup (fn_names rs) -> sec_spec b rs c -> sec_spec b rs' c.
+Proof. exact sec_spec_perm. Qed.
+Theorem C04_sec_spec_unique : forall b rs c c', sec_spec b rs c -> sec_spec b rs c' -> c = c'.
+Proof. exact sec_spec_unique. Qed.
+(* With branch parsing disabled no branch data is produced - for every byte string. *)
+Theorem C04_no_branch : forall bs res, parse_lcov bs false = Ok res -> Forall (fun r => c_branches r.2 = ∅) res.
+Proof. exact parse_lcov_no_branch. Qed.
+(* add_branch is slot-wise OR padded with false: a vector indexed by branch number, order-free. *)
+Theorem C04_add_branch_alg : forall m line no taken,
+  add_branch m line no taken =
+  <[line := or_vec (default [] (m !! line)) (replicate (N.to_nat no) false ++ [taken])]> m.
+Proof. exact add_branch_alg. Qed.
+(* The model never needs more fuel than the input length and never panics (shared with C14). *)
+Theorem C04_parse_lcov_total : forall bs b, parse_lcov bs b <> Panic /\ parse_lcov bs b <> OutOfFuel.
+Proof. intros bs b. split; [apply parse_lcov_no_panic | apply parse_lcov_fuel]. Qed.
+
+(* The known-finding class is real: the FNDA-before-FN witness is well-formed and is rejected. *)
+Definition ex_known : lfile :=
+  mkLfile [mkSection [] (bs "a") false [(RFNDA (bs "1") (bs "f"), false); (RFN (bs "1") (bs "f"), false)] false] [].
+Example C04_known_class_witness :
+  wf_file ex_known = true /\ existsb KnownClass_fnda_first (l_sections ex_known) = true /\
+  parse_lcov (render_file ex_known) true = Err.
+Proof. vm_compute. auto. Qed.
